@@ -66,7 +66,7 @@ E_NOISE = 1e-9
 
 def budget(tier):
     if tier == "quick":
-        return dict(max_examples=9600, shards=16, wall_s=150, shrink_s=30)
+        return dict(max_examples=9600, shards=16, wall_s=150, shrink_s=15)
     return dict(max_examples=48000, shards=16, wall_s=850, shrink_s=150)
 
 
